@@ -45,7 +45,7 @@ Fresh(id, fam, viol, cov) ==
    shown |-> "", shownMsvc |-> FALSE, lastFin |-> 0, lastReads |-> <<>>, lastHasDep |-> FALSE,
    prevOK |-> FALSE, prevTargets |-> <<>>, prevFile |-> "", changed |-> TRUE, repeat |-> FALSE,
    inInv |-> FALSE, errSeen |-> FALSE, lastOk |-> FALSE, p1names |-> {},
-   xpl |-> NoXpl, locs |-> <<>>, lastSum |-> <<"none", 0>>, crashed |-> FALSE,
+   xpl |-> NoXpl, locs |-> <<>>, lastSum |-> <<"none", 0>>, crashed |-> FALSE, logBytes |-> 0,
    viol |-> viol, cov |-> cov]
 
 Init == l = 1 /\ w = Fresh("", "", {}, Cov0)
@@ -340,8 +340,12 @@ DoDbw(ev) ==
       cands == {s \in StepIds(g) : g.steps[s].outs = ev.outs}
       s == IF cands = {} THEN 0 ELSE CHOOSE x \in cands : TRUE
       expected == IF w.inv.adopt THEN CurRec(s).deps ELSE w.pend.deps
-      rec == [outs |-> ev.outs, deps |-> ev.deps,
-              sig |-> Sig(g, w.file, s, ev.deps), tok |-> ev.tok]
+      \* The mirrored log holds what SHOULD have been recorded (the report of the run just
+      \* finished; in restat mode the list that was loaded): a record with another list is flagged
+      \* here (rec-deps) and its consequences show up later as steps the rule calls dirty (C02).
+      deps2 == IF s # 0 /\ (w.inv.adopt \/ w.pend.s = s) THEN expected ELSE ev.deps
+      rec == [outs |-> ev.outs, deps |-> deps2,
+              sig |-> Sig(g, w.file, s, deps2), tok |-> ev.tok]
       v == Lbl({"C08"}, "rec-unknown-outs", s # 0)
            \cup (IF s = 0 THEN {} ELSE
                    Lbl({"C05", "C02"}, "rec-without-success", w.inv.adopt \/ w.pend.s = s)
@@ -354,13 +358,18 @@ DoDbw(ev) ==
                    \cup Lbl({"CONF"}, "explain", (w.inv.adopt /\ w.inv.explain) => XplReasonOK(g, s, w.xpl)))
       cov == BumpIf(BumpIf(BumpIf(Bump(w.cov, "dbw"), "adoptRec", isBuild /\ w.inv.adopt),
                 "discRec", isBuild /\ ev.deps # <<>>), "crash", "kept" \in DOMAIN ev)
-  IN IF w.bad \/ ~isBuild THEN [w EXCEPT !.cov = cov, !.crashed = @ \/ ("kept" \in DOMAIN ev)]
-     ELSE IF s = 0 THEN [w EXCEPT !.viol = @ \cup v, !.cov = cov, !.crashed = @ \/ ("kept" \in DOMAIN ev)]
+      \* bytes of this write that belong to the log for good (a torn write contributes nothing;
+      \* when n2 died before the 8-byte signature was complete the next invocation starts the log over)
+      nb == LET lb == w.logBytes + (IF torn THEN 0 ELSE ev.len)
+            IN IF "kept" \in DOMAIN ev /\ lb < 8 THEN 0 - w.logBytes ELSE lb - w.logBytes
+  IN IF w.bad \/ ~isBuild THEN [w EXCEPT !.cov = cov, !.crashed = @ \/ ("kept" \in DOMAIN ev), !.logBytes = @ + nb]
+     ELSE IF s = 0 THEN [w EXCEPT !.viol = @ \cup v, !.cov = cov, !.crashed = @ \/ ("kept" \in DOMAIN ev),
+                                  !.logBytes = @ + nb]
      ELSE [w EXCEPT !.log = IF torn THEN @ ELSE Append(@, rec),
                     !.cur = IF torn THEN @ ELSE (s :> rec) @@ @,
                     !.pend = IF w.pend.s = s THEN NoPend ELSE @,
                     !.xpl = IF w.inv.adopt /\ w.inv.explain THEN [@ EXCEPT !.kind = "used"] ELSE @,
-                    !.crashed = @ \/ ("kept" \in DOMAIN ev),
+                    !.crashed = @ \/ ("kept" \in DOMAIN ev), !.logBytes = @ + nb,
                     !.viol = @ \cup v, !.cov = cov]
 
 DoPu(ev) ==
@@ -442,6 +451,12 @@ DoEnd(ev) ==
                         \E s \in np : ev.errarg \in MissingSources(g, w.file, s))
                 \cup Lbl({"C04"}, "pool-undeclared-ok", (badPool # {} /\ ok) => \A s \in badPool : ~DirtyNow(g, s) /\ s \notin w.started)
                 \cup Lbl({"C04"}, "pool-arg", ev.errk = "unknown_pool" => \E s \in badPool : PoolOf(g, s) = ev.errarg)
+                \* a name is only judged unknown against a manifest that is up to date: when the
+                \* manifest has a producer, the error may come without a reload only if nothing in
+                \* the manifest's own closure was out of date
+                \cup Lbl({"C17", "C18"}, "unknown-before-regen",
+                       (ev.errk = "unknown_path" /\ w.workNo = 1 /\ HasProducer(g, MFile))
+                          => \A s \in NonPhony(g, W1(g)) : s \in w.finOK \/ ~DirtyNow(g, s))
                 \cup Lbl({"C17"}, "no-reload", (w.p1ok /\ w.workNo = 1 /\ w.finFail = {} /\ w.intr = {}) => ev.err # "")
                 \* ... and when n2 went on without reloading: what it then did is judged against the
                 \* manifest text now on disk (C18's "(reloaded) manifest"): commands run for the
@@ -478,9 +493,13 @@ DoEnd(ev) ==
                   (loaded /\ "dbat" \in DOMAIN ev) =>
                      Range(ev.dbat) = {IF bdir = "" THEN ".n2_db" ELSE bdir \o "/.n2_db"})
       \* -C: n2 works in the named directory (and everything else is as if started there)
+      \* the log on disk is exactly the writes that reached it completely: nothing of a torn write
+      \* survives a later invocation (a sufficient condition for C07, hence only CONF)
+      vsize == Lbl({"CONF"}, "log-size",
+                   (loaded /\ "dbsize" \in DOMAIN ev /\ ev.dbsize >= 0 /\ ~w.bad) => ev.dbsize = w.logBytes)
       vcwd == Lbl({"C18"}, "chdir", (loaded /\ "cwd" \in DOMAIN ev) => ev.cwd = w.inv.cdir)
       vdead == Lbl({"C06"}, "hang", ev.dead \notin {"hang", "livelock"})
-  IN [w EXCEPT !.viol = IF dead THEN @ \cup vdead ELSE @ \cup v \cup vexit \cup vlog \cup vcwd,
+  IN [w EXCEPT !.viol = IF dead THEN @ \cup vdead ELSE @ \cup v \cup vexit \cup vlog \cup vcwd \cup vsize,
                !.cov = IF dead THEN @ ELSE cov,
                !.inInv = FALSE, !.lastOk = (~dead /\ ok),
                !.lastSum = <<ev.summary, IF ev.summary = "ran" THEN ev.n ELSE 0>>,
